@@ -748,21 +748,88 @@ def corpus():
 # declaration order of <components>
 # ------------------------------------------------------------------------------------------
 
+PARSE_CODES = {"AssertionError": 1, "RuntimeError": 2, "KeyError": 3, "ValueError": 4}
+PARSE_NAMES = {1: "AssertionError", 2: "RuntimeError", 3: "KeyError", 4: "ValueError", 5: "header is None",
+               6: "outside the model"}
+
+
+def codes(text):
+    return [ord(c) for c in text]
+
+
+def schema_struct(d):
+    """The dump of the real parser's objects in the answer format of the parse model (request 4)."""
+    ncode = {n: i for i, n in enumerate(d["names"])}
+    tcode = {t: i for i, t in enumerate(d["types"])}
+
+    def mem(m):
+        if m[0] == "F":
+            return [0, codes(m[1]), int(m[2])]
+        return [1, codes(m[1]), int(m[2]), [mem(x) for x in m[3]]]
+    return [[[codes(t), ncode[n], tcode[y], int(e)] for t, n, y, e in d["fields"]],
+            [mem(m) for m in d["header"]],
+            [[codes(mt), [mem(m) for m in ms]] for mt, _, ms in d["messages"]]]
+
+
+def impl_parse(root):
+    """Real parser on an element tree: [0, schema structure] | [1, exception class code]."""
+    try:
+        schema = gen_schema.load(ET.ElementTree(root))
+    except Exception as e:  # noqa: BLE001
+        n = type(e).__name__
+        return [1, PARSE_CODES.get(n, n)]
+    if schema._header is None:
+        return [1, 5]
+    return [0, schema_struct(gen_schema.dump(schema, strict=True))]
+
+
+def sx_raw(raw):
+    fcode, tcode, ccode, mcode = gen_schema.raw_codes(raw)
+
+    def child(c):
+        if c[0] == "F":
+            return "[0,%d,%d]" % (fcode(c[1]), int(c[2]))
+        if c[0] == "C":
+            return "[1,%d]" % ccode[c[1]]
+        return "[2,%d,%d,[%s]]" % (fcode(c[1]), int(c[2]), ",".join(child(x) for x in c[3]))
+
+    def kids(cs):
+        return "[" + ",".join(child(c) for c in cs) + "]"
+    fields = ",".join("[%s,%d,%d,%d]" % (sx(t), fcode(n), tcode[y], int(e)) for t, n, y, e in raw["fields"])
+    grp = ",".join(str(fcode(n)) for n in raw["groupable"])
+    comps = ",".join("[%d,%s]" % (ccode[n], kids(ch)) for n, ch in raw["comps"])
+    msgs = ",".join("[%d,%s,%s]" % (mcode[n], sx(mt), kids(ch)) for n, mt, ch in raw["msgs"])
+    return "[4,[[%s],[%s],%s,[%s],[%s]]]" % (fields, grp, kids(raw["header"]), comps, msgs)
+
+
+def show_parse(r):
+    if isinstance(r, list) and len(r) == 2 and r[0] == 1:
+        return "raised " + str(PARSE_NAMES.get(r[1], r[1]))
+    if isinstance(r, list) and len(r) == 2 and r[0] == 0:
+        return "parsed" if not isinstance(r[1], int) else ("parsed, %s the reference schema" % ("equal to" if r[1] else "DIFFERENT from"))
+    return repr(r)[:200]
+
+
 def permutation_check(ctx, rng, n_random):
+    """Real parser and parse model on permuted <components> declaration orders of the dictionaries.
+    Oracle: the parsed schema equals the one of the original order."""
+    jobs = []
     for D in dicts().values():
         path = os.path.join(core.REPO, D.rel)
         root = ET.parse(path).getroot()
         comps = root.find("components")
         kids = list(comps) if comps is not None else []
+        base = gen_schema.dump(gen_schema.load(ET.ElementTree(root)), strict=False)
+        perms = [("identity", list(range(len(kids))))]
         if len(kids) < 2:
             ctx.notes.append("%s declares %d components: nothing to permute" % (D.rel, len(kids)))
-            continue
-        perms = [("rotation", list(range(r, len(kids))) + list(range(r))) for r in range(1, len(kids))]
-        perms.append(("reversed", list(range(len(kids) - 1, -1, -1))))
-        for _ in range(n_random):
-            p = list(range(len(kids)))
-            rng.shuffle(p)
-            perms.append(("random", p))
+        else:
+            perms += [("rotation", list(range(r, len(kids))) + list(range(r))) for r in range(1, len(kids))]
+            perms.append(("reversed", list(range(len(kids) - 1, -1, -1))))
+            for _ in range(n_random):
+                p = list(range(len(kids)))
+                rng.shuffle(p)
+                perms.append(("random", p))
         for kind, p in perms:
             for k in list(comps):
                 comps.remove(k)
@@ -773,13 +840,164 @@ def permutation_check(ctx, rng, n_random):
             ctx.count("permutation:" + kind)
             try:
                 d2 = gen_schema.dump(gen_schema.load(ET.ElementTree(root)), strict=False)
+                impl = [0, int(d2 == base)]
             except Exception as e:  # noqa: BLE001
+                impl = [1, PARSE_CODES.get(type(e).__name__, type(e).__name__)]
                 ctx.fail(case, "parsing with <components> in %s order raised %s: %s" % (kind, type(e).__name__, str(e)[:200]))
-                continue
-            if d2 != D.d:
-                diff = [m2[1] for m1, m2 in zip(D.d["messages"], d2["messages"]) if m1 != m2][:5]
+            if impl == [0, 0]:
+                diff = [m2[1] for m1, m2 in zip(base["messages"], d2["messages"]) if m1 != m2][:5]
                 ctx.fail(case, "the parsed schema depends on the declaration order of <components> (%s): messages %s differ%s" % (
-                    kind, diff, "" if d2["header"] == D.d["header"] else ", header differs"))
+                    kind, diff, "" if d2["header"] == base["header"] else ", header differs"))
+            jobs.append((case, impl, "[3,%d,[%s]]" % (D.idx, ",".join(map(str, p)))))
+    if ctx.model:
+        outs = ctx.model.batch([j[2] for j in jobs])
+        for (case, impl, _), out in zip(jobs, outs):
+            ctx.traces += 1
+            if out != impl:
+                ctx.disagree(case, show_parse(impl), show_parse(out), "parse-of-permuted-components")
+
+
+# ---- synthetic dictionaries: real parser vs parse model, also on defective declarations ----
+
+def _first(root, path):
+    el = root.find(path)
+    return el
+
+
+def d_cycle(root, rng):
+    c0 = root.find("components/component[@name='C0']")
+    ET.SubElement(c0, "component", {"name": "C1", "required": "N"})
+    return True
+
+
+def d_undeclared_in_component(root, rng):
+    c = rng.choice(list(root.find("components")))
+    c.insert(rng.randrange(len(c) + 1), ET.Element("component", {"name": "CX", "required": "N"}))
+    return True
+
+
+def d_undeclared_in_message(root, rng):
+    m = rng.choice(list(root.find("messages")))
+    groups = list(m.iter("group"))
+    target = rng.choice(groups) if groups and rng.random() < 0.5 else m
+    target.insert(rng.randrange(len(target) + 1), ET.Element("component", {"name": "CX", "required": "N"}))
+    return True
+
+
+def d_dup_field(root, rng):
+    sets = [el for el in list(root.find("messages")) + [root.find("header")] + list(root.iter("group")) if el.find("field") is not None]
+    if not sets:
+        return None
+    el = rng.choice(sets)
+    f = rng.choice(el.findall("field"))
+    el.append(ET.Element("field", {"name": f.attrib["name"], "required": "N"}))
+    return True
+
+
+def d_unknown_field(root, rng):
+    m = rng.choice(list(root.find("messages")) + list(root.find("components")))
+    m.insert(rng.randrange(len(m) + 1), ET.Element("field", {"name": "Nope", "required": "N"}))
+    return True
+
+
+def d_bad_group_field(root, rng):
+    plain = [f.attrib["name"] for f in root.find("fields") if f.attrib["name"].startswith("F")]
+    m = rng.choice(list(root.find("messages")))
+    used = {c.attrib["name"] for c in m}
+    cands = [p for p in plain if p not in used]
+    if len(cands) < 2:
+        return None
+    g = ET.SubElement(m, "group", {"name": cands[0], "required": "N"})
+    ET.SubElement(g, "field", {"name": cands[1], "required": "N"})
+    return True
+
+
+def d_dup_message_name(root, rng):
+    msgs = root.find("messages")
+    m = rng.choice(list(msgs))
+    msgs.append(copy.deepcopy(m))
+    return True
+
+
+def d_dup_msgtype(root, rng):
+    msgs = root.find("messages")
+    if len(msgs) < 2:
+        return None
+    a, b = rng.sample(list(msgs), 2)
+    b.attrib["msgtype"] = a.attrib["msgtype"]
+    return True
+
+
+def d_header_component(root, rng):
+    root.find("header").append(ET.Element("component", {"name": "C0", "required": "N"}))
+    return True
+
+
+def d_dup_component(root, rng):
+    comps = root.find("components")
+    comps.insert(rng.randrange(len(comps) + 1), copy.deepcopy(rng.choice(list(comps))))
+    return True
+
+
+def d_dup_group(root, rng):
+    sets = [el for el in list(root.find("messages")) + list(root.iter("group")) if el.find("group") is not None]
+    if not sets:
+        return None
+    el = rng.choice(sets)
+    el.append(copy.deepcopy(rng.choice(el.findall("group"))))
+    return True
+
+
+def d_permute(root, rng):
+    comps = root.find("components")
+    kids = list(comps)
+    for k in kids:
+        comps.remove(k)
+    kids.reverse()
+    for k in kids:
+        comps.append(k)
+    return True
+
+
+DEFECTS = [("permuted", d_permute), ("cycle", d_cycle), ("undeclared_in_component", d_undeclared_in_component),
+           ("undeclared_in_message", d_undeclared_in_message), ("dup_field", d_dup_field),
+           ("unknown_field", d_unknown_field), ("bad_group_field", d_bad_group_field),
+           ("dup_message_name", d_dup_message_name), ("dup_msgtype", d_dup_msgtype),
+           ("header_component", d_header_component), ("dup_component", d_dup_component), ("dup_group", d_dup_group)]
+
+
+def parse_check(ctx, rng, n):
+    """Real parser vs parse model on synthetic dictionaries: as generated, with the component
+    declarations reversed, and with one declaration defect each."""
+    jobs = []
+    for k in range(n):
+        xml = synth_xml(rng)
+        variants = [("as_generated", xml)]
+        picks = [DEFECTS[0]] + rng.sample(DEFECTS[1:], 4)
+        for name, fn in picks:
+            root = ET.fromstring(xml)
+            if fn(root, rng):
+                variants.append((name, ET.tostring(root, encoding="unicode")))
+        for name, text in variants:
+            root = ET.fromstring(text)
+            impl = impl_parse(root)
+            raw = gen_schema.raw_of_root(root)
+            jobs.append(({"parse_xml": text, "label": "parse:" + name}, name, impl, sx_raw(raw)))
+    outs = ctx.model.batch([j[3] for j in jobs]) if ctx.model else [None] * len(jobs)
+    for (case, name, impl, _), out in zip(jobs, outs):
+        ctx.case(("parse", case["parse_xml"]), True)
+        ctx.traces += 1
+        ctx.count("parse:" + name)
+        ctx.count("parse-impl:" + ("parsed" if impl[0] == 0 else str(PARSE_NAMES.get(impl[1], impl[1]))))
+        if name in ("as_generated", "permuted", "dup_msgtype") and impl[0] != 0:
+            raise RuntimeError("synthetic dictionary (%s) refused by the real parser: %s" % (name, show_parse(impl)))
+        if out is None:
+            continue
+        if out == [1, 6]:
+            ctx.count("parse: outside the model (same-named group added twice), not compared")
+            continue
+        if out != impl:
+            ctx.disagree(case, show_parse(impl), show_parse(out), "parse-result-or-exception-class")
 
 
 # ------------------------------------------------------------------------------------------
@@ -833,6 +1051,7 @@ def run(ctx):
     ctx.extra["gen_s"] = round(time.time() - t0, 1)
     evaluate(ctx, cases)
     permutation_check(ctx, rng, ctx.scale(30, 200))
+    parse_check(ctx, rng, ctx.scale(60, 400))
     ctx.extra["message_types"] = {d.name: len(d.msgs) for d in dicts().values()}
     ctx.extra["other_exception_classes"] = list(OTHER)
 
@@ -858,6 +1077,11 @@ def replay(path):
     case = rec.get("input")
     if not case:
         print("replay: no concrete input; broken:", rec.get("broken"))
+        return 1
+    if "parse_xml" in case:
+        root = ET.fromstring(case["parse_xml"])
+        print("real parser on the recorded declarations:", show_parse(impl_parse(root)))
+        print("model result recorded:", rec.get("model_result"))
         return 1
     D = dict_of_case(case)
     if "components_order" in case:
